@@ -101,9 +101,29 @@ def dump(m, ids=None):
     return lpdump.dump_impl(m.solver, colkey_cyc(m, ids))
 
 
+def premises(ctx, engine, m, req):
+    """The instance on which model and code are compared is machine-checked to lie inside the domain of the walk-encoder
+    theorems: the extracted VERIFIED checkers WalkChecked.wf_stg_b (well-formed s-t digraph, adjacency tables consistent
+    with the edge list, duplicate-free node list containing source and sink) and WalkChecked.winputs_ok_b (subset
+    constraints incl. appended safe sequences and walks_to_fix consist of edges of the graph) are evaluated on the very
+    tokens the encoder receives (theorems *_checked in WalkChecked.v).  The walk models take no other graph data."""
+    cmd, rest = req.split(" ", 1)
+    out = ctx.model.run([cmd + "premises " + rest])[0].split()
+    ctx.count(engine, "premises_checked")
+    if out != ["1", "1"]:
+        ctx.count(engine, "premises_failed")
+        ctx.report(f"{engine}: the instance handed to the walk encoder is outside the premises of the encoder theorems "
+                   f"(well-formed s-t graph: {out[0] if out else '?'}, sequences consist of edges: {out[1] if len(out) > 1 else '?'})",
+                   {"engine": engine, "nodes": [str(v) for v in m.G.nodes()], "edges": [[str(u), str(v)] for u, v in m.G.edges()]}, concrete=False)
+
+
 def compare(ctx, engine, m, req, what=("cols", "rows", "obj", "sense")):
     """Diff the LP held by model object `m` against the Coq encoder's answer to `req`.
     Returns (diff list, impl dump)."""
+    try:
+        premises(ctx, engine, m, req)
+    except Exception as e:
+        ctx.report(f"{engine}: premises check crashed: {e!r}", {"engine": engine}, concrete=False)
     impl = dump(m)
     out = ctx.model.run([req], multiline=True)[0]
     model = lpdump.parse_model(out)
